@@ -410,6 +410,18 @@ def apply_content_fault(data, fault, other=None):
         return bytes((fault.get('seed', 1) * 13 + j * 29) % 256 for j in range(fault.get('len', 50)))
     if k == 'empty':
         return b''
+    if k == 'hdr':                  # rewrite one field of the header line with a plausible-but-wrong value (tolerant: no header -> no-op)
+        i = data.find(b'\n')
+        if i < 0:
+            return bytes(b)
+        fields = data[:i].split(b' ')
+        v = fault.get('variant', 0) % 10
+        j = fault.get('field', 1) % max(1, len(fields))
+        repl = [b'0', b'1', b'99999999999999999999', b'-1', b'', b'12x', str(max(0, n - i - 2)).encode(), str(n).encode(), fields[j][::-1], fields[j].upper()][v]
+        fields[j] = repl
+        if v == 4 and len(fields) > 1:
+            del fields[j]
+        return b' '.join(fields) + data[i:]
     if k == 'splice_head':          # header line of this file + everything after the header line of the other
         if other is None:
             return bytes(b)
